@@ -12,6 +12,7 @@ EXPLANATION = ('WAL confinement of every persistent-state writer; in replay a re
                'validation pass (checksum compared, sequence number == last_enacted+1); last_enacted advanced only by the applier; appliers '
                'never read the file they write (after-images, idempotent); replay, log cleanup and in-memory table initialisation are totally '
                'ordered before worker threads start; a failed replay deletes no log; FIFO discipline of the log queues; logs replayed in record-id order.')
+EXPLANATION += ' Added: validator and applier agree on records that name a dropped table; an action is validated against / applied to the table it names; the index and ref-count sections of one record are written in table order; an existing table file of any length is sized at open; the slots of a freshly initialised table are written header last; dropping a table that never got a file is not an error; allocation state changes only while a record is planned (known finding F22).'
 ASSUMPTIONS = ['content of what write_plan logged is not decided (value level)', 'mmap torn-page behaviour: see C12', 'unwind edges ignored',
                'exception (reasoned): ValueTable::do_init_with_entry writes the header entry of a table file that did not exist before, outside the WAL']
 TRUSTED = ['rustc MIR construction (nightly)', 'pdb-facts driver', 'rule engine /verif/rules', 'anchor tables in props/shared.py, props/C02.py']
